@@ -13,7 +13,7 @@ EXTRA_PROPS = {
     'C07.tokenize.safety': ['C10'],        # token array overrun = daemon abort from one AddMatch (seed C10-2)
     'C12.edit.remove_unknown': ['C03'],    # unknown header fields really removed (seed C03-1)
     'C12.edit.delete_field': ['C02'],      # stale header cache after deleting a field (seed C02-2)
-    'C12.edit.set_field': ['C02'],
+    'C12.edit.set_field': ['C02', 'C05', 'C03'],   # the bus stamps the sender and then routes on DESTINATION read through the field cache (seed3 C05-2)
     'C07.match': ['C18'],                  # a monitor's destination= filter (seed C18-2)
     'C07.match.nonempty': ['C18'],
     'C04.swap_owner.restore': ['C14'],
